@@ -24,7 +24,7 @@ from hsim.worlds.http import FlowRecord, HttpWorld
 
 PROPERTY = "C15"
 CHUNK = {"quick": 10, "thorough": 24}
-PROBES = ["closed_session_collected", "session_closed_with_flows_parked", "released_after_its_session_closed",
+PROBES = ["preempt_after_release", "closed_session_collected", "session_closed_with_flows_parked", "released_after_its_session_closed",
           "response_of_a_closed_session_handled", "two_sessions_in_one_simulator", "take_resume_later", "take_never_resumed", "raise_in_request_hook", "raise_in_response_hook",
           "raise_in_subscriber", "raise_in_logger", "malformed_seed_request", "malformed_eq_request",
           "malformed_seed_response", "malformed_eq_response", "malformed_uploader_response", "malformed_login_response",
@@ -48,7 +48,7 @@ ASSUMPTIONS = [
 ]
 
 REQ_BEH = ["ignore", "ignore", "ignore", "meta", "rewrite_url", "inject", "take_resume_later", "take_resume_now",
-           "take_raise_resume_later", "take_never", "raise", "no_stream", "resume_twice"]
+           "take_raise_resume_later", "take_never", "raise", "no_stream", "resume_twice", "take_resume_preempt"]
 RESP_BEH = ["ignore", "ignore", "ignore", "meta", "mutate_body", "take_resume_later", "raise", "truthy"]
 SUB_BEH = ["ignore", "ignore", "raise", "take_resume_later"]
 KINDS = ["cap", "cap", "unknown", "seed", "seed_bad", "eq", "eq_bad", "uploader", "uploader_bad", "login", "login_bad",
@@ -191,7 +191,9 @@ def run_plan(plan: dict) -> RunResult:
                     "region": id(cd.region()) if cd and cd.region and cd.region() else None,
                     "base_url": cd.base_url if cd else None}
 
-        def do_take(flow, tag, event, how, later, raise_after=False, never=False):
+        preempts: Dict[str, dict] = {}
+
+        def do_take(flow, tag, event, how, later, raise_after=False, never=False, preempt_after=None):
             flow.take()
             key = (flow.id, event)
             takes[key] = {"resumed_at": None, "never": never}
@@ -206,12 +208,24 @@ def run_plan(plan: dict) -> RunResult:
                         takes[key]["resumed_at"] = loop.time()
                         takes[key]["resumed_pump"] = world.in_pump
                         res.probe("take_resume_later")
+                        if preempt_after is not None:
+                            loop.call_later(preempt_after, _preempt, context=contextvars.Context())
                     except AssertionError:
                         pass
                     except Exception as e:
                         # whoever holds a taken flow must be able to release it, whatever happened meanwhile
                         violate("C15/handoff/release-raised", tag=tag, event=event, exc=repr(e)[:160],
                                 session_closed=st_.get("s") in closed)
+                def _preempt():
+                    # the addon, having released the flow, races the origin with an answer of its own
+                    try:
+                        flow.response = mitmproxy.http.Response.make(
+                            418, f"preempted-{tag}".encode(), {"Content-Type": "text/plain"})
+                        flow.preempt()
+                        preempts[flow.id] = {"t": loop.time(), "tag": tag}
+                        res.probe("preempt_after_release")
+                    except Exception as e:
+                        violate("C15/handoff/preempt-raised", tag=tag, exc=repr(e)[:160])
                 if later is None:
                     _resume()
                 else:
@@ -254,6 +268,8 @@ def run_plan(plan: dict) -> RunResult:
                     do_take(flow, tag, "request", "addon", st["later"])
                 elif b == "take_resume_now":
                     do_take(flow, tag, "request", "addon", None)
+                elif b == "take_resume_preempt":
+                    do_take(flow, tag, "request", "addon", st["later"], preempt_after=0.002)
                 elif b == "take_raise_resume_later":
                     do_take(flow, tag, "request", "addon", st["later"], raise_after=True)
                 elif b == "take_never":
@@ -563,7 +579,26 @@ def run_plan(plan: dict) -> RunResult:
                             req_beh=st["req_beh"], resp_beh=st["resp_beh"], subs=[st["sub_session"], st["sub_region"]],
                             status=st["status"])
                     break
-                if rec.resume_calls != len(cbs):
+                pre = [c for c in world.to_proxy_log if c["type"] == "preempt" and c["flow_id"] == rec.id]
+                if rec.id in preempts:
+                    # the pre-empting answer crosses over exactly once, state intact
+                    if len(pre) != 1:
+                        violate("C15/handoff/preempt-count", tag=tag, queued=len(pre))
+                        break
+                    stp = pre[0]["state"]
+                    resp_ = stp.get("response") or {}
+                    if resp_.get("status_code") != 418 or bytes(resp_.get("content") or b"") != f"preempted-{tag}".encode():
+                        violate("C15/state/preempting-response-lost", tag=tag, status=resp_.get("status_code"))
+                        break
+                    if cbs and stp["metadata"].get("cap_data_ser") != cbs[0]["state"]["metadata"].get("cap_data_ser"):
+                        violate("C15/state/cap-data-changed", tag=tag, kind_="preempt",
+                                before=repr(cbs[0]["state"]["metadata"].get("cap_data_ser"))[:200],
+                                now=repr(stp["metadata"].get("cap_data_ser"))[:200])
+                        break
+                elif pre:
+                    violate("C15/handoff/preempt-count", tag=tag, queued=len(pre), want=0)
+                    break
+                if not (len(cbs) <= rec.resume_calls <= len(cbs) + len(pre)):
                     violate("C15/handoff/resume-count", tag=tag, resumes=rec.resume_calls, callbacks=len(cbs))
                     break
                 # timing: non-taken events come back from the very pump call that handled them, promptly
@@ -590,7 +625,7 @@ def run_plan(plan: dict) -> RunResult:
                     violate("C15/handoff/flow-never-completed", tag=tag, kind_=st["kind"], events=[e[0] for e in rec.events])
                     break
                 # state as it arrived back on the mitmproxy side
-                if rec.result is not None:
+                if rec.result is not None and rec.id not in preempts:
                     md = rec.result["metadata"]
                     inj_tag = md.get("hsim_injected")
                     # (requests to asset wrapper caps are redirected / re-pointed by the event manager itself
